@@ -186,7 +186,9 @@ pub fn case(seed: u64, st: &mut Stats) {
             }
             if rng.chance(1, 3) {
                 a.num_args = Some((0, 1));
-                a.default_missing = vec![format!("x{}missing", i)];
+                // (without a missing-value default a bare occurrence stays an occurrence without
+                // values: still from the command line, nothing from the environment or a default on top)
+                a.default_missing = if rng.chance(1, 3) { vec![] } else { vec![format!("x{}missing", i)] };
                 if rng.coin() {
                     a.require_equals = true;
                 }
